@@ -2,6 +2,7 @@
 # run every property check (default tier quick) in parallel; prints one summary line per check
 cd "$(dirname "$0")"
 TIER=${1:-quick}
+mkdir -p work
 ./setup.sh >/dev/null 2>&1
 for n in 01 02 03 04 05 06 07 08 09 10 11 12 13 14 15 16 17 18 19 20; do
   ( ./check C$n --tier $TIER > work/runall_C$n.log 2>&1; echo "C$n rc=$? $(tail -1 work/runall_C$n.log)" ) &
